@@ -36,8 +36,8 @@ theorem c07_wire_prefix (cfg : Cfg) (w : W) (v : V) (u : Bool) (bs p s : Bytes)
 
 /-- file level (plain and schema-less containers): whenever loading the complete file succeeds and
     consumes it entirely, loading any strict prefix fails — it never yields a value, in particular
-    never a different one.  (`hsc`: the schema-section reader is monotone; proved for the real format
-    in `Sfv.Props.C13`.) -/
+    never a different one.  (`hsc`: the schema-section reader is monotone; discharged for the real format
+    by `c13_reader_monotone`, giving `c13_plain_file_prefix` without hypotheses on the reader.) -/
 theorem c07_file_prefix {S} (cfg : Cfg) (env : UserFns) (sc : SchemaCodec S) (expected : Option (Nat → S))
     (T : Ty) (memVer : Nat) (p s : Bytes) (x : V)
     (hsc : ∀ s lib bs sch r', sc.decS lib bs = .ok (sch, r') → sc.decS lib (bs ++ s) = .ok (sch, r' ++ s))
